@@ -590,6 +590,11 @@ def eligible(c, cls, fields_decl):
         return False, 'abstract callee'
     for p, ty in c.params.items():
         if p != 'self' and ann_is_abstract(ty):
+            # per-call stream objects (Obj("Encoder") / Obj("Decoder")) are concrete classes with plain fields: they
+            # are generated like `self` (fields + fixups); every other object / opaque parameter stays excluded
+            if isinstance(ty, ast.Call) and isinstance(ty.func, ast.Name) and ty.func.id == 'Obj' and len(ty.args) == 1 \
+                    and isinstance(ty.args[0], ast.Constant) and ty.args[0].value in ('Encoder', 'Decoder'):
+                continue
             return False, 'abstract/opaque parameter %s' % p
     if cls is not None:
         # only the fields the clauses mention matter
